@@ -132,11 +132,14 @@ Fixpoint orun fixed save_late reroot content isman fuel (s : ostore) (ops : list
 
 (* Is index.json written by Store.GC AFTER the digest references of the reachable content
    have been restored?  Read off the source on every run: Generated.GC07.calls_GC is the
-   source-order sequence of the calls s.gcIndex / s.tagResolver.Tag / s.saveIndex in
-   Store.GC (translator kind "callseq"). *)
+   source-order sequence of the calls s.gcIndex / s.graph.Exists / s.tagResolver.Resolve /
+   s.tagResolver.Tag (the restoration loop) / s.saveIndex / os.ReadDir (the sweep) in Store.GC (translator kind "callseq"). *)
 Definition gc_save_after_restore : bool :=
   match calls_GC with
-  | [a; t; w] => str_eqb a (b "s.gcIndex") && str_eqb t (b "s.tagResolver.Tag") && str_eqb w (b "s.saveIndex")
+  | [a; e; r; t; w; d; d2] =>
+      str_eqb a (b "s.gcIndex") && str_eqb e (b "s.graph.Exists") && str_eqb r (b "s.tagResolver.Resolve")
+      && str_eqb t (b "s.tagResolver.Tag") && str_eqb w (b "s.saveIndex") && str_eqb d (b "os.ReadDir")
+      && str_eqb d2 (b "os.ReadDir")
   | _ => false
   end.
 
@@ -147,5 +150,31 @@ Definition delete_reroots : bool :=
   match calls_delete_c07 with
   | [r; t; w; d] => str_eqb r (b "s.graph.Remove") && str_eqb t (b "s.tagResolver.Tag")
                     && str_eqb w (b "s.saveIndex") && str_eqb d (b "s.storage.Delete")
+  | _ => false
+  end.
+
+(* ---- content/file.Store.Push (file.go): push (store the bytes: named file or fallback CAS;
+   may refuse: duplicate name, overwrite disallowed, IgnoreNoName discards), graph.Index, and
+   restoreDuplicates (write the successors that are listed under another name; may fail: a
+   name that cannot be written).  [stored]/[restored] are the outcomes of the first and the
+   last step, chosen by the environment; [index_first] is the order of the other two
+   (true = the code after "fix: file store indexes pushed content before restoring
+   duplicated files"); a Push of stored content is refused (already exists / duplicate name). *)
+Record fstore := mkF { f_blobs : list node; f_graph : graph }.
+Definition empty_fstore : fstore := mkF [] empty_graph.
+Inductive fop := FPush (n : node) (stored restored : bool).
+Definition fstep (index_first : bool) (content : node -> list node) (s : fstore) (o : fop) : fstore :=
+  match o with
+  | FPush n stored restored =>
+      if smem n (f_blobs s) || negb stored then s
+      else if index_first || restored
+           then mkF (n :: f_blobs s) (index (f_graph s) n (content n))
+           else mkF (n :: f_blobs s) (f_graph s)
+  end.
+Definition frun index_first content (ops : list fop) : fstore :=
+  fold_left (fstep index_first content) ops empty_fstore.
+Definition file_index_first : bool :=
+  match calls_filePush with
+  | [p; i; r] => str_eqb p (b "s.push") && str_eqb i (b "s.graph.Index") && str_eqb r (b "s.restoreDuplicates")
   | _ => false
   end.
